@@ -8,6 +8,7 @@ import (
 	"fmt"
 	"os"
 	"path/filepath"
+	"regexp"
 	"sort"
 
 	"verifharness/cmd/c09/iox"
@@ -23,6 +24,7 @@ type caseDesc struct {
 }
 
 type env struct {
+	noMask   bool // corpus replay of F30: compare the unmasked texts
 	hung     bool // a run did not return: stop generating, report what we have
 	o        *vh.Opts
 	sum      *vh.Summary
@@ -41,6 +43,18 @@ func (e *env) schemaOf(v iox.Variant) *vh.LoggedSchema {
 	}
 	e.schemas[v.Name] = ls
 	return ls
+}
+
+var jsonLineRe = regexp.MustCompile(`before/near line \d+`)
+
+// maskOf: guard json_line_masked (known finding F30): the JSON reader's "before/near line N" counts
+// the lines the json decoder has read AHEAD, which depends on the delivery schedule; exactly that
+// number is masked for JSON in the main stream.  Nothing else is masked, for any format.
+func (e *env) maskOf(v iox.Variant) func(string) string {
+	if e.noMask || v.FmtIdx != 5 {
+		return nil
+	}
+	return func(t string) string { return jsonLineRe.ReplaceAllString(t, "before/near line N") }
 }
 
 func maxReads(in []byte) int { return len(in)/2 + 12 }
@@ -93,7 +107,7 @@ func (e *env) checkInput(r *vh.Rng, v iox.Variant, in []byte, scheds []iox.Sched
 		if len(got) == 1 && got[0].Kind == "hang" {
 			e.hung = true
 		}
-		if d := iox.FirstDiff(base, got); d >= 0 {
+		if d := iox.FirstDiffT(base, got, e.maskOf(v)); d >= 0 {
 			sc := sc
 			e.sum.Fail(fmt.Sprintf("transcripts differ between schedules %q and %q of the same bytes (first difference at Read #%d)", scheds[0].Name, sc.Name, d+1),
 				caseDesc{v.Name, v.Schema, hex.EncodeToString(in), scheds[0], &sc},
@@ -109,6 +123,7 @@ type corpusCase struct {
 	InputHex string        `json:"input_hex"`
 	A        *iox.Schedule `json:"schedule_a,omitempty"` // both given: exactly these two schedules
 	B        *iox.Schedule `json:"schedule_b,omitempty"`
+	Unmasked bool          `json:"unmasked,omitempty"` // compare the error texts without the json_line_masked guard
 	Note     string        `json:"note"`
 }
 
@@ -186,14 +201,16 @@ func main() {
 			if cc.A != nil && cc.B != nil {
 				scheds = []iox.Schedule{*cc.A, *cc.B}
 			}
+			e.noMask = cc.Unmasked
 			nt, _ := e.checkInput(r, v, in, scheds, interior)
+			e.noMask = false
 			sum.Count("corpus:"+cc.Variant+":"+cc.InputHex, nt)
 			sum.Hist("corpus")
 		}
 	}
 
 	// ---- generated inputs x schedules ----
-	total := o.Count(800, 40000)
+	total := o.Count(800, 12000)
 	for c := 0; c < total && !e.hung; c++ {
 		v := e.variants[r.Pick(len(e.variants))]
 		gi := iox.GenInput2(r, v)
